@@ -55,6 +55,10 @@ def run(tier):
 def replay(path):
     import json
     rp = json.load(open(path))
+    if 'forge' in rp:
+        fbin = vlib.build_harness('forge', 'asan', exclude=[])
+        print(vlib.serve(fbin, [rp['forge']], vlib.asan_env())[0])
+        return 0
     unit = vlib.build_harness('unit', 'asan', exclude=EXCLUDE)
     print(vlib.serve(unit, [rp['request']], vlib.asan_env())[0])
     return 0
